@@ -9,6 +9,7 @@ package main
 // observable state and asks the Lean model to make the same step.
 
 import (
+	"os"
 	"bytes"
 	"context"
 	"errors"
@@ -235,6 +236,7 @@ type rtDelivery struct {
 }
 
 type rtRun struct {
+	traceFile                 *os.File     // labels executed so far, for crash attribution
 	mirrorBad                 []string     // configs whose nested section disagrees with their slots
 	byDone                    bool         // the schedule ended by every source calling Done, not by cancelling
 	monBlockedAt              string       // the monitor was found blocked somewhere else than in its top-level select
